@@ -372,6 +372,7 @@ func (m *Module) onRespond(w *engine.World, tx *engine.TxRecord, op *engine.Op, 
 	}
 	rq.State = reqAnswered
 	rq.DoneAt = tx.Height
+	rq.Output = a.Output
 	w.Hit("svc.request_answered")
 }
 
